@@ -92,7 +92,7 @@ static void proj(LHAReader *r)
 static void hexs(const char *k, const char *s)
 {
 	printf(",\"%s\":", k);
-	if (!s) { printf("null"); return; }
+	if (!s) { printf("\"~\""); return; }   /* NULL pointer (TLC's Json module cannot read null) */
 	putchar('"'); for (; *s; s++) printf("%02x", (unsigned char) *s); putchar('"');
 }
 static void tail(LHAReader *r)
